@@ -14,9 +14,14 @@ CONSTANTS IntA, IntB,        \* rotation intervals of the two nodes
           Skew,              \* B registers the handshake Skew time units after A
           MaxNow, KdfUsesTime, Coordinated, TearDown,
           ReHandshakes,      \* how many re-handshakes over the open connection a behaviour may contain (request_chunk does one before a fetch)
-          IgnoreReHandshakeWhileOpen  \* deviation: a handshake for a peer whose session is open is answered "fine" without being processed
-VARIABLES now, ctr, last, key, open, hist
-vars == <<now, ctr, last, key, open, hist>>
+          IgnoreReHandshakeWhileOpen, \* deviation: a handshake for a peer whose session is open is answered "fine" without being processed
+          SplitTicks,        \* BOOLEAN: a tick takes its "now" in one step and decides about rotation in a later one (Node::tick reads the clock at
+                             \* its top and rotates at its end; handshakes are registered by other threads in between)
+          NegativeElapsedIsDue  \* deviation: key material younger than the tick's "now" counts as due for rotation
+VARIABLES now, ctr, last, key, open, hist,
+          tstart,   \* tstart[n]: the "now" an in-flight tick of n has taken (-1: no tick in flight)
+          earlyrot  \* ghost: some rotation happened before its end's interval had elapsed since that end registered / rotated the key
+vars == <<now, ctr, last, key, open, hist, tstart, earlyrot>>
 Nodes == {"a", "b"}
 Ival(n) == IF n = "a" THEN IntA ELSE IntB
 Other(n) == IF n = "a" THEN "b" ELSE "a"
@@ -25,9 +30,22 @@ Kdf(c, t) == <<c, IF KdfUsesTime THEN t ELSE 0>>
 Init == /\ now = Skew /\ ctr = [n \in Nodes |-> 0]
         /\ last = [n \in Nodes |-> IF n = "a" THEN 0 ELSE Skew]
         /\ key = [n \in Nodes |-> <<0, 0>>]      \* the handshake key (same material on both sides: C12)
-        /\ open = TRUE /\ hist = <<>>
+        /\ open = TRUE /\ hist = <<>> /\ tstart = [n \in Nodes |-> -1] /\ earlyrot = FALSE
 Due(n) == now - last[n] >= Ival(n)
+DueAt(n, t) == t - last[n] >= Ival(n) \/ (NegativeElapsedIsDue /\ t - last[n] < 0)
+\* the two halves of a tick that is overtaken by other threads
+TickBegin(n) == /\ SplitTicks /\ tstart[n] = -1 /\ tstart' = [tstart EXCEPT ![n] = now]
+                /\ hist' = Append(hist, [op |-> "tickbegin", n |-> n]) /\ UNCHANGED <<now, ctr, last, key, open, earlyrot>>
+TickEnd(n) ==
+    /\ SplitTicks /\ tstart[n] # -1 /\ tstart' = [tstart EXCEPT ![n] = -1]
+    /\ hist' = Append(hist, [op |-> "tickend", n |-> n])
+    /\ IF ~DueAt(n, tstart[n]) \/ ~open THEN UNCHANGED <<now, ctr, last, key, open, earlyrot>>
+       ELSE /\ ctr' = [ctr EXCEPT ![n] = @ + 1] /\ last' = [last EXCEPT ![n] = tstart[n]]
+            /\ key' = [key EXCEPT ![n] = Kdf(ctr[n] + 1, tstart[n])]
+            /\ earlyrot' = (earlyrot \/ tstart[n] - last[n] < Ival(n))
+            /\ UNCHANGED <<now, open>>
 Tick(n) ==
+    /\ tstart[n] = -1 /\ UNCHANGED <<tstart, earlyrot>>
     /\ hist' = Append(hist, [op |-> "tick", n |-> n])
     /\ IF ~Due(n) \/ ~open THEN UNCHANGED <<now, ctr, last, key, open>>
        ELSE IF Coordinated
@@ -43,17 +61,21 @@ NRehs == Cardinality({i \in 1..Len(hist) : hist[i].op = "rehs"})
 ReHandshake(n) ==
     /\ open /\ NRehs < ReHandshakes
     /\ hist' = Append(hist, [op |-> "rehs", n |-> n])
+    /\ UNCHANGED <<tstart, earlyrot>>
     /\ IF IgnoreReHandshakeWhileOpen THEN UNCHANGED <<now, ctr, last, key, open>>
        ELSE /\ key' = [m \in Nodes |-> <<0, 0>>] /\ ctr' = [m \in Nodes |-> 0] /\ last' = [m \in Nodes |-> now] /\ UNCHANGED <<now, open>>
-Advance == /\ now' = now + 1 /\ hist' = Append(hist, [op |-> "adv"]) /\ UNCHANGED <<ctr, last, key, open>>
-Next == Advance \/ \E n \in Nodes : (Tick(n) \/ ReHandshake(n))
+Advance == /\ now' = now + 1 /\ hist' = Append(hist, [op |-> "adv"]) /\ UNCHANGED <<ctr, last, key, open, tstart, earlyrot>>
+Next == Advance \/ \E n \in Nodes : (Tick(n) \/ ReHandshake(n) \/ TickBegin(n) \/ TickEnd(n))
 Spec == Init /\ [][Next]_vars
-View == <<now, ctr, last, key, open, IF hist = <<>> THEN "none" ELSE hist[Len(hist)].op, NRehs>>
+View == <<now, ctr, last, key, open, IF hist = <<>> THEN "none" ELSE hist[Len(hist)].op, NRehs, tstart, earlyrot>>
 Bound == now <= MaxNow
 \* [C39] a session never stays open while its two ends hold different keys
 C39_SameKeyWhileOpen == open => key["a"] = key["b"]
 \* [C39] "... or the session is torn down and re-established": a re-handshake over the open connection leaves both ends on one key
 C39_ReHandshakeConverges == (hist # <<>> /\ hist[Len(hist)].op = "rehs" /\ open) => key["a"] = key["b"]
+\* a rotation happens only when the interval has elapsed since that end registered / last rotated the key, whatever overtakes the tick
+C39_NoEarlyRotation == ~earlyrot
+Reach_HandshakeInsideTick == ~(\E n \in Nodes : tstart[n] # -1 /\ last[n] > tstart[n])
 Reach_ReHandshakeAfterDrift == ~(open /\ key["a"] # key["b"] /\ NRehs < ReHandshakes)    \* a re-handshake is possible in a drifted state
 Reach_BothRotatedEqually == ~(ctr["a"] = ctr["b"] /\ ctr["a"] > 0)
 Reach_Unilateral == ~(ctr["a"] # ctr["b"])
